@@ -26,9 +26,10 @@ func vMin(a, b int) int {
 }
 
 // bcrypt contract (engine-only replacement; native replay uses the real bcrypt):
-// hash = "H:" ++ password;  Compare(h, p) == nil  <=>  h == "H:" ++ p.
+// hash = "H:" ++ salt(2 arbitrary bytes) ++ password;  Compare(h, p) == nil  <=>  h = "H:" ++ any 2 bytes ++ p.
 func vStub_bcrypt_GenerateFromPassword(password []byte, cost int) ([]byte, error) {
-	return append([]byte("H:"), password...), nil
+	salt := vBytesN("bcrypt.salt", 2) // every hash is salted: two hashes of one password differ as strings
+	return append(append([]byte("H:"), salt...), password...), nil
 }
 
 type vErr struct{}
@@ -36,7 +37,7 @@ type vErr struct{}
 func (vErr) Error() string { return "verif: stub error" }
 
 func vStub_bcrypt_CompareHashAndPassword(hashedPassword, password []byte) error {
-	if string(hashedPassword) == "H:"+string(password) {
+	if vIsHashOf(string(hashedPassword), string(password)) {
 		return nil
 	}
 	return vErr{}
@@ -60,7 +61,6 @@ func refTransaction(t *Transaction, fields [][]byte) []byte {
 	return out
 }
 
-
 // ---- stubs for connection-level harnesses -----------------------------------------------------------
 
 type vAcctStub struct {
@@ -70,10 +70,10 @@ type vAcctStub struct {
 	mutated  int
 }
 
-func (m *vAcctStub) Create(a Account) error                { m.mutated++; return nil }
+func (m *vAcctStub) Create(a Account) error                  { m.mutated++; return nil }
 func (m *vAcctStub) Update(a Account, newLogin string) error { m.mutated++; return nil }
-func (m *vAcctStub) Delete(login string) error             { m.mutated++; return nil }
-func (m *vAcctStub) List() []Account                       { return nil }
+func (m *vAcctStub) Delete(login string) error               { m.mutated++; return nil }
+func (m *vAcctStub) List() []Account                         { return nil }
 func (m *vAcctStub) Get(login string) *Account {
 	m.getCalls = append(m.getCalls, login)
 	if !m.exists || login != m.account.Login {
@@ -96,7 +96,10 @@ func (b *vBanStub) IsBanned(ip string) (bool, *time.Time) {
 	return b.banned, b.until
 }
 
-type vSeeker struct{ text []byte; off int }
+type vSeeker struct {
+	text []byte
+	off  int
+}
 
 func (s *vSeeker) Read(p []byte) (int, error) {
 	if s.off >= len(s.text) {
@@ -147,3 +150,8 @@ func vDrainOutbox(s *Server) []Transaction {
 
 // vLogger: a real logger that discards (logging is a no-op in the symbolic run).
 func vLogger() *slog.Logger { return slog.New(slog.NewTextHandler(io.Discard, nil)) }
+
+// vIsHashOf: h is a (stub) hash of pw, whatever its salt.
+func vIsHashOf(h, pw string) bool {
+	return len(h) >= 4 && h[0] == 'H' && h[1] == ':' && h[4:] == pw
+}
